@@ -265,6 +265,12 @@ func (rc *RunCtx) SetupProto(tag string, quiet bool) *ProtoRun {
 				return nil
 			}
 			pr.N, pr.T = 5, 2
+			if rr := sc.Int("rerand", 0); rr != 0 {
+				// the same key with one party's ring-Pedersen generators replaced by (h1^e, h2^e): an equally
+				// valid key set (h2 = h1^alpha still holds) with another session id, so that values derived
+				// from the key set (ssid bytes, contexts) are not the same few in every run on the vendored key
+				keys = rerandomiseRingPedersen(keys, uint64(rr))
+			}
 			ks := make([]*big.Int, len(keys))
 			for i := range keys {
 				ks[i] = keys[i].ShareID
@@ -306,8 +312,36 @@ func (rc *RunCtx) SetupProto(tag string, quiet bool) *ProtoRun {
 		if s > pr.N {
 			s = pr.N
 		}
+		if sc.Bool("shortssid") && s < pr.T+1 {
+			s = pr.T + 1 // (the generators of such runs change n and t after the signer count was drawn)
+		}
 		pr.Members = randSubset(srng.IntN, pr.N, s)
 		spids := subsetPIDs("s", pr.keyPIDs, pr.Members)
+		if sc.Bool("shortssid") {
+			// directed: look for a (key set, signer set) whose session id has a leading zero byte (ssid.go)
+			found := false
+			if pr.Curve == "ec" {
+				pr.ecKeys, found = ecKeysWithShortSignSSID(spids, pr.ecKeys, uint64(sc.Int("rerand", 1)), 2000)
+			} else {
+				// one key (the generators give such runs ten parties), every signer set of admissible size:
+				// about a thousand candidate session ids for the price of one key generation
+			search:
+				for size := pr.T + 1; size <= pr.N; size++ {
+					for _, sub := range subsets(pr.N, size, 0) {
+						sp := subsetPIDs("s", pr.keyPIDs, sub)
+						if edSignSSIDShort(sp, pr.edKeys) {
+							pr.Members, spids, found = sub, sp, true
+							break search
+						}
+					}
+				}
+			}
+			if found {
+				rc.Res.Probes["key_set_with_short_session_id"]++
+			} else {
+				rc.Res.Probes["short_session_id_not_found"]++
+			}
+		}
 		w := mkWorld()
 		pr.W = w
 		if pr.Curve == "ed" {
@@ -333,10 +367,22 @@ func (rc *RunCtx) SetupProto(tag string, quiet bool) *ProtoRun {
 		}
 		pr.Members = randSubset(srng.IntN, pr.N, part)
 		opids := subsetPIDs("o", pr.keyPIDs, pr.Members)
+		if sc.Bool("shortssid") && pr.Curve == "ec" {
+			// the resharing session id is the same digest over the old committee's view
+			var found bool
+			if pr.ecKeys, found = ecKeysWithShortSignSSID(opids, pr.ecKeys, uint64(sc.Int("rerand", 1)), 2000); found {
+				rc.Res.Probes["key_set_with_short_session_id"]++
+			} else {
+				rc.Res.Probes["short_session_id_not_found"]++
+			}
+		}
 		pr.NewN, pr.NewT = sc.Int("newn", 3), sc.Int("newt", 1)
 		pr.NewIDKs = idKeys(idRand("new", pr.NewN, sc.Int("idpool", 0)), sc.Str("newids", "small"), pr.NewN, g.Order(), 1000)
 		w := mkWorld()
 		pr.W = w
+		if sc.Bool("fullcount") {
+			w.OldPartyCount = pr.N
+		}
 		if pr.Curve == "ed" {
 			pr.edOldIn = edKeysFor(opids, pr.edKeys)
 			pr.Olds, pr.News = w.AddEdResharing(opids, pr.edOldIn, pr.T, pr.NewIDKs, pr.NewT)
@@ -603,4 +649,26 @@ func (pr *ProtoRun) AttachWireChecks(extraSecrets func(n *Node) [][]byte) {
 		}
 		return nil
 	})
+}
+
+// rerandomiseRingPedersen returns deep copies of the key set in which one party's ring-Pedersen
+// generators (h1, h2) are replaced by (h1^e, h2^e) mod NTilde for an odd e derived from seed, in every
+// party's public view and in the owner's own parameters.
+func rerandomiseRingPedersen(keys []eckg.LocalPartySaveData, seed uint64) []eckg.LocalPartySaveData {
+	out := make([]eckg.LocalPartySaveData, len(keys))
+	for i := range keys {
+		out[i] = cloneECKey(keys[i])
+	}
+	j := int(seed % uint64(len(out[0].H1j)))
+	e := new(big.Int).SetUint64(seed*2654435761 | 1)
+	nt := out[0].NTildej[j]
+	h1 := new(big.Int).Exp(out[0].H1j[j], e, nt)
+	h2 := new(big.Int).Exp(out[0].H2j[j], e, nt)
+	for i := range out {
+		out[i].H1j[j], out[i].H2j[j] = new(big.Int).Set(h1), new(big.Int).Set(h2)
+		if idx, err := out[i].OriginalIndex(); err == nil && idx == j {
+			out[i].H1i, out[i].H2i = new(big.Int).Set(h1), new(big.Int).Set(h2)
+		}
+	}
+	return out
 }
